@@ -213,6 +213,10 @@ def check(ctx):
                     accepted = 'deleg-true' in st.flags or any(f.startswith('deleg:') and st.locals.get((int(f.split(':')[1]), f.split(':')[2])) == 'T' for f in st.flags)
                     if accepted:
                         st = st.with_flag('POP-AFTER-ACCEPT')
+                if call_attr(cl) in ('append', 'insert') and isinstance(cl.func, ast.Attribute) and isinstance(cl.func.value, ast.Attribute) and cl.func.value.attr == '_group_pathing':
+                    accepted = 'deleg-true' in st.flags or any(f.startswith('deleg:') and st.locals.get((int(f.split(':')[1]), f.split(':')[2])) == 'T' for f in st.flags)
+                    if accepted:
+                        st = st.with_flag('PUSH-AFTER-ACCEPT')
             return st
 
         def edge10(an_, n, label, st, g10=g10):
@@ -232,6 +236,11 @@ def check(ctx):
                              f'{c10.name}.give_part pops the group-path stack after the downstream accepted the part: if that downstream is a GroupPath (groups in series, or an inner group '
                              'path used as the output of an outer group) the entry removed is the downstream\'s, the part keeps the path it has just left and later leaves the next group '
                              'through the wrong path (deadlock / unbounded recursion)', file=c10.mod.path, line=hit[2].lineno, path=res10.path_lines(ex, st))
+                if 'PUSH-AFTER-ACCEPT' in st.flags:
+                    o10.fail(P, f'{c10.name}.give_part', 'part._group_pathing.append(self)',
+                             f'{c10.name}.give_part puts its path on the group-path stack only after the group accepted the part: a device inside the group that is itself a group path '
+                             '(nested groups entered in one call chain) has pushed itself first, so the stack holds the paths in the wrong order and the part leaves the inner group '
+                             'through the outer path, skipping the remaining stations of the outer group', file=c10.mod.path, line=hit[2].lineno, path=res10.path_lines(ex, st))
     for s in inv.method_calls(P, 'remove_from_routing_history'):
         if s.cls is not None and s.cls.name == 'Batch':
             continue
